@@ -298,7 +298,9 @@ class Ref:
             blob = RBlob(e[1], {})
             benv = Env(env); benv.vars["self"] = Cell(blob, True)
             for f, x in e[2]:
-                blob.fields[f] = Cell(self.ev(x, benv))
+                # `self` names the instance inside a field that is a function literal (a method); every other field expression is
+                # evaluated in the surrounding scope (where `self`, if any, is the instance of an enclosing method)
+                blob.fields[f] = Cell(self.ev(x, benv if isinstance(x, tuple) and x and x[0] == "fn" else env))
             return blob
         if k == "variant":
             return RVariant(e[1], e[2], NIL if e[3] is None else self.ev(e[3], env))
